@@ -434,6 +434,9 @@ fn as_rank(rank: u64, v: &[f32]) -> Tensor {
 fn act_close(act: &str, got: f32, want64: f64, want32: f32) -> bool {
     match act {
         "relu" | "leaky" | "linear" => got.to_bits() == want32.to_bits() || (got == 0.0 && want32 == 0.0),
+        // tanh and its derivative 1/cosh^2 involve no cancellation: RELATIVE accuracy (tanh(x) ~ x for small x must not be
+        // quantised to multiples of 6e-8), with slack only where the result leaves the normal range
+        "tanh" => (got as f64 - want64).abs() <= 1e-5 * want64.abs() + 1e-37,
         _ => (got as f64 - want64).abs() <= 1e-5 * want64.abs().max(1.0),
     }
 }
